@@ -2,6 +2,7 @@ package main
 
 import (
 	"fmt"
+	"os"
 	"go/token"
 	"go/types"
 
@@ -333,7 +334,24 @@ func ruleInstallSinks(c *Ctx, rule string) {
 					if w.key(f.Call.Args[0]) != ipKey {
 						return false
 					}
-					ac, _ := callOf(f.Call.Args[1])
+					fv := f.Call.Args[1]
+					ac, _ := callOf(fv)
+					if ac == nil {
+						// the family read once before the per-peer callback (captured variable):
+						// the same value, as the family is fixed when the allocation is created
+						v := w.resolveLoad(fv)
+						if x, isFV := v.(*ssa.FreeVar); isFV {
+							if b := w.binding(x); b != nil {
+								v = w.resolveLoad(b)
+							}
+						}
+						if os.Getenv("TURNCHECK_C01DEBUG") != "" {
+							fmt.Fprintf(os.Stderr, "C01.3 fam arg %T %s -> %T %s immutable=%v\n", fv, w.key(fv), v, w.key(v), w.immutableGetter(addrFam))
+						}
+						if ac2, _ := callOf(v); ac2 != nil && (ac2.Parent() == f.Parent() || w.immutableGetter(addrFam)) {
+							ac = ac2
+						}
+					}
 					return ac != nil && ac.Call.StaticCallee() == addrFam && w.sameKey(ac.Call.Args[0], recv)
 				})
 				if f == nil {
